@@ -20,15 +20,17 @@ import (
 )
 
 type Obligation struct {
-	Name   string
-	Kind   string // ensures, requires-at-call, loop-entry, loop-preserve, frame, lemma, schema, canary, vacuity
-	Guard  string
-	Goal   string
-	NDecl  int
-	Src    string
-	Where  string
-	Expect Verdict // Unsat for ordinary obligations; Sat/Unknown-accepted for canaries ("must not be unsat")
-	Extra  map[string]string
+	Name     string
+	Kind     string // ensures, requires-at-call, loop-entry, loop-preserve, frame, lemma, schema, canary, vacuity
+	Guard    string
+	Goal     string
+	NDecl    int
+	LoopFrom int // >= 0: index of the first fact of the enclosing loop's havoced state (facts between SetupEnd and LoopFrom can be dropped first)
+	SetupEnd int
+	Src      string
+	Where    string
+	Expect   Verdict // Unsat for ordinary obligations; Sat/Unknown-accepted for canaries ("must not be unsat")
+	Extra    map[string]string
 }
 
 type Unit struct {
@@ -55,11 +57,31 @@ type Exec struct {
 	fset    *token.FileSet
 	// hooks
 	unitSuffix  string
+	trace       []Event
+	traceOn     bool
+	curLoopFrom int
+	setupEnd    int
+	topContract *FuncContract
+	frameExcl   map[string]bool
 	entered     map[int]bool   // loop headers (block index) entered by the top frame in this pass
 	enteredPrev map[int]bool   // ... in earlier passes: loop ordinals count only these
 	knownType   map[string]int // term of an interface value -> its dynamic type id (per-case units)
 	onCall      func(fr *frame, c *ssa.CallCommon, callee *ssa.Function, args []Val, st *State, guard string) (handled bool, res Val)
 	maxInline   int
+}
+
+// Event: something the executor did that per-case obligations are later stated about.
+type Event struct {
+	Kind   string // "call", "store", "alloc"
+	Guard  string
+	Instr  ssa.Instruction
+	Callee string // contract key or function name (calls)
+	Args   []Val
+	St     *State // state at the event (before the effect for calls, after for stores)
+	Loc    *Loc   // store target
+	Val    Val    // stored value / allocated reference
+	Typ    types.Type
+	Depth  int // inlining depth (0 = the verified function itself)
 }
 
 type retInfo struct {
@@ -69,14 +91,16 @@ type retInfo struct {
 }
 
 type loopRec struct {
-	header   *ssa.BasicBlock
-	ord      int
-	blocks   map[*ssa.BasicBlock]bool
-	entrySt  *State
-	invs     []Clause
-	kKey     string
-	vars     map[string]Val // extra spec variables ($k ...)
-	modLocal []string
+	header    *ssa.BasicBlock
+	ord       int
+	blocks    map[*ssa.BasicBlock]bool
+	entrySt   *State
+	invs      []Clause
+	kKey      string
+	vars      map[string]Val // extra spec variables ($k ...)
+	modLocal  []string
+	startDecl int
+	nBack     int
 }
 
 type frame struct {
@@ -130,7 +154,7 @@ func (ex *Exec) pos(p token.Pos) string {
 }
 
 func (ex *Exec) oblige(name, kind, guard, goal, src, where string) *Obligation {
-	o := &Obligation{Name: name, Kind: kind, Guard: guard, Goal: goal, NDecl: len(ex.u.decls), Src: src, Where: where, Expect: Unsat}
+	o := &Obligation{Name: name, Kind: kind, Guard: guard, Goal: goal, NDecl: len(ex.u.decls), Src: src, Where: where, Expect: Unsat, LoopFrom: ex.curLoopFrom, SetupEnd: ex.setupEnd}
 	ex.unit.Obls = append(ex.unit.Obls, o)
 	// assert-then-assume, for obligations inside the body; exit obligations are independent of each other
 	switch kind {
@@ -281,7 +305,21 @@ func (ex *Exec) wf(v Val, st *State) string {
 			implies(eq(sArr(t), "0"), and(eq(sCap(t), "0"), eq(sOff(t), "0"))))
 	case *types.Interface:
 		t := v.T
-		return and(app("<=", "0", iTyp(t)), implies(eq(iTyp(t), "0"), eq(iRef(t), "0")), app("<", iRef(t), next))
+		lower := "true"
+		if it := v.Typ.Underlying().(*types.Interface); it.NumMethods() > 0 {
+			// an interface all of whose implementers are pointer types holds a reference (>= 0)
+			allPtr := true
+			impls := u.implementers(it, typeKey(v.Typ))
+			for _, c := range impls {
+				if _, ok := c.(*types.Pointer); !ok {
+					allPtr = false
+				}
+			}
+			if allPtr && len(impls) > 0 {
+				lower = app("<=", "0", iRef(t))
+			}
+		}
+		return and(app("<=", "0", iTyp(t)), implies(eq(iTyp(t), "0"), eq(iRef(t), "0")), app("<", iRef(t), next), lower)
 	case *types.Pointer, *types.Map, *types.Signature:
 		return and(app("<=", "0", v.T), app("<", v.T, next))
 	}
@@ -336,12 +374,30 @@ func (ex *Exec) execBody(fr *frame, st *State, guard string) (string, *State, []
 		}
 		delete(incoming, b)
 		fr.visited[b] = true
+		if fr.top {
+			ex.curLoopFrom = -1
+			best := -1
+			for h, body := range loops {
+				if body[b] && h != b {
+					if lr := fr.loops[h]; lr != nil && (best < 0 || len(body) < best) {
+						best = len(body)
+						ex.curLoopFrom = lr.startDecl
+					}
+				}
+			}
+		}
 		g, s, phiSel := ex.merge(ins, b)
+		if fr.top && len(ins) > 1 && fr.contract != nil && len(fr.contract.Tracks) > 0 {
+			ex.trackAcrossMerge(fr, b, ins, g, s)
+		}
 		if lb, isLoop := loops[b]; isLoop {
 			if fr.top && ex.entered != nil {
 				ex.entered[b.Index] = true
 			}
 			s = ex.enterLoop(fr, b, lb, ordOf[b], g, s)
+			if fr.top {
+				ex.curLoopFrom = fr.loops[b].startDecl
+			}
 		}
 		ex.execBlock(fr, b, g, s, ins, phiSel, func(to *ssa.BasicBlock, eg string, es *State) {
 			if back[[2]*ssa.BasicBlock{b, to}] {
@@ -396,7 +452,10 @@ func blockOrder(fn *ssa.Function) ([]*ssa.BasicBlock, map[[2]*ssa.BasicBlock]boo
 	var dfs func(b *ssa.BasicBlock)
 	dfs = func(b *ssa.BasicBlock) {
 		seen[b] = true
-		for _, s := range b.Succs {
+		// successors in reverse: the resulting reverse postorder follows source order
+		// (then before else, loop body before loop exit)
+		for i := len(b.Succs) - 1; i >= 0; i-- {
+			s := b.Succs[i]
 			if back[[2]*ssa.BasicBlock{b, s}] || seen[s] {
 				continue
 			}
@@ -545,6 +604,10 @@ func (ex *Exec) merge(ins []edgeIn, b *ssa.BasicBlock) (string, *State, []string
 		for i, in := range ins {
 			u.fact(implies(in.guard, eq(n, terms[i])))
 		}
+		if k == "next" {
+			// the allocation counter never decreases: link the merged value to the entry value directly
+			u.fact(app(">=", n, smtName("next")))
+		}
 		out.vars[k] = n
 	}
 	return g, out, gs
@@ -646,6 +709,7 @@ func (ex *Exec) enterLoop(fr *frame, h *ssa.BasicBlock, body map[*ssa.BasicBlock
 		ex.oblige(fmt.Sprintf("%s%s#loop%d-entry:%s", shortFn(fr.fn), ex.sfx(fr), ord, clauseLabel(inv, i)), "loop-entry", g, t, inv.Src, ex.clauseWhere(inv))
 	}
 	// havoc
+	lr.startDecl = len(u.decls)
 	keys := ex.loopModKeys(fr, body)
 	s2 := s.clone()
 	var ks []string
@@ -692,6 +756,7 @@ func (ex *Exec) enterLoop(fr *frame, h *ssa.BasicBlock, body map[*ssa.BasicBlock
 	u.fact(implies(g, app(">=", kk, "0")))
 	if _, ok := u.keySorts["next"]; ok && keys["next"] {
 		u.fact(implies(g, app(">=", u.get(s2, "next"), u.get(s, "next"))))
+		u.fact(implies(g, app(">=", u.get(s2, "next"), smtName("next"))))
 	}
 	lr.modLocal = ks
 	for _, inv := range lr.invs {
@@ -712,13 +777,18 @@ func (ex *Exec) backEdge(fr *frame, h *ssa.BasicBlock, g string, s *State) {
 	}
 	s = s.clone()
 	s.vars[lr.kKey] = ex.u.define("k", SInt, plus(s.vars[lr.kKey], "1"))
+	lr.nBack++
+	edgeTag := ""
+	if lr.nBack > 1 {
+		edgeTag = fmt.Sprintf(".%d", lr.nBack) // a second back edge (continue) gets its own obligations
+	}
 	for i, inv := range lr.invs {
 		env := ex.specEnv(fr, s, lr)
 		t, err := env.evalBool(inv.Expr)
 		if err != nil {
 			ex.failf("%s loop %d invariant: %v", fr.fn.String(), lr.ord, err)
 		}
-		ex.oblige(fmt.Sprintf("%s%s#loop%d-preserve:%s", shortFn(fr.fn), ex.sfx(fr), lr.ord, clauseLabel(inv, i)), "loop-preserve", g, t, inv.Src, ex.clauseWhere(inv))
+		ex.oblige(fmt.Sprintf("%s%s#loop%d-preserve%s:%s", shortFn(fr.fn), ex.sfx(fr), lr.ord, edgeTag, clauseLabel(inv, i)), "loop-preserve", g, t, inv.Src, ex.clauseWhere(inv))
 	}
 }
 
@@ -1066,6 +1136,9 @@ func (ex *Exec) instr(fr *frame, in ssa.Instruction, g string, s *State) string 
 			r := u.alloc(s, g)
 			ex.zeroInit(s, r, t)
 			fr.regs[in] = Val{T: r, Typ: in.Type()}
+			if ex.traceOn {
+				ex.trace = append(ex.trace, Event{Kind: "alloc", Guard: g, Instr: in, St: s.clone(), Val: fr.regs[in], Typ: t, Depth: len(ex.stack) - 1})
+			}
 			return g
 		}
 		if at, ok := t.Underlying().(*types.Array); ok {
@@ -1111,6 +1184,9 @@ func (ex *Exec) instr(fr *frame, in ssa.Instruction, g string, s *State) string 
 		u.storeLoc(s, l, val)
 		if l.Kind == LLocal {
 			delete(ex.ptrLocals(s), l.Key)
+		}
+		if ex.traceOn && l.Kind == LField {
+			ex.trace = append(ex.trace, Event{Kind: "store", Guard: g, Instr: in, St: s.clone(), Loc: l, Val: val, Typ: l.Typ, Depth: len(ex.stack) - 1})
 		}
 		return g
 	case *ssa.UnOp:
@@ -1615,8 +1691,17 @@ func (ex *Exec) mapSet(s *State, m, k, v Val) {
 	mt := m.Typ.Underlying().(*types.Map)
 	mk, dk := ex.mapKeys(mt)
 	cm, cd := u.get(s, mk), u.get(s, dk)
-	u.set(s, mk, u.keySorts[mk], store(cm, m.T, store(sel(cm, m.T), k.T, ex.term(v, "map value"))))
-	u.set(s, dk, u.keySorts[dk], store(cd, m.T, store(sel(cd, m.T), k.T, "true")))
+	ks := sortOf(mt.Key())
+	vt := ex.term(v, "map value")
+	nm := u.freshConst(mk, u.keySorts[mk])
+	nd := u.freshConst(dk, u.keySorts[dk])
+	u.fact(eq(nm, store(cm, m.T, store(sel(cm, m.T), k.T, vt))))
+	u.fact(eq(nd, store(cd, m.T, store(sel(cd, m.T), k.T, "true"))))
+	// redundant pointwise forms: they give e-matching the pre-update lookups as ground terms
+	u.fact(fmt.Sprintf("(forall ((k!m %s)) (! (= (select (select %s %s) k!m) (ite (= k!m %s) true (select (select %s %s) k!m))) :pattern ((select (select %s %s) k!m))))", ks, nd, m.T, k.T, cd, m.T, nd, m.T))
+	u.fact(fmt.Sprintf("(forall ((k!m %s)) (! (= (select (select %s %s) k!m) (ite (= k!m %s) %s (select (select %s %s) k!m))) :pattern ((select (select %s %s) k!m))))", ks, nm, m.T, k.T, vt, cm, m.T, nm, m.T))
+	s.vars[mk] = nm
+	s.vars[dk] = nd
 }
 
 func (ex *Exec) mapDelete(s *State, m, k Val) {
@@ -1984,4 +2069,33 @@ func (ex *Exec) sfx(fr *frame) string {
 		return ex.unitSuffix
 	}
 	return ""
+}
+
+// trackAcrossMerge: for every tracked state predicate P of the verified function, prove P on each
+// incoming edge's state (under that edge's guard) and then record P for the merged state. The
+// merged state equals the state of the taken edge on every path (that is what merge() asserts),
+// so P(merged) follows from the per-edge facts by congruence; stating it spares the solver the
+// case split through the quantifiers of P.
+func (ex *Exec) trackAcrossMerge(fr *frame, b *ssa.BasicBlock, ins []edgeIn, g string, s *State) {
+	for ti, tr := range fr.contract.Tracks {
+		okAll := true
+		for i, in := range ins {
+			env := ex.specEnv(fr, in.st, nil)
+			t, err := env.evalBool(tr.Expr)
+			if err != nil {
+				okAll = false // e.g. a local named by the predicate is not live on this edge
+				break
+			}
+			ex.oblige(fmt.Sprintf("%s%s#join%d.%d:%s", shortFn(fr.fn), ex.sfx(fr), b.Index, i+1, clauseLabel(tr, ti)), "join", in.guard, t, tr.Src, ex.clauseWhere(tr))
+		}
+		if !okAll {
+			continue
+		}
+		env := ex.specEnv(fr, s, nil)
+		t, err := env.evalBool(tr.Expr)
+		if err != nil {
+			continue
+		}
+		ex.u.fact(implies(g, t))
+	}
 }
